@@ -633,7 +633,7 @@ func c04StoreBacked(c *core.Ctx, impl string) {
 // than the service name, a strict prefix of it, sharing a prefix with it - reach
 // the service; each gets exactly one response and the service stays up.
 func c04WideOwnership(c *core.Ctx, name string) {
-	for _, own := range [][2][]string{{nil, {">"}}, {{">"}, {">"}}, {{name + ".>", "auth.>"}, {"*", "*.>"}}, {{name, name + ".>"}, nil}} {
+	for _, own := range [][2][]string{{nil, {">"}}, {{">"}, {">"}}, {{name + ".>", "auth.>"}, {"*", "*.>"}}, {{name, name + ".>"}, nil}, {{name + ".m.*", name + ".zzz"}, {name + ".m.*"}}} {
 		tbl := &scriptTable{}
 		rg := newRig(name, func(s *res.Service) {
 			scriptedService(s, tbl, nil)
@@ -658,6 +658,19 @@ func c04WideOwnership(c *core.Ctx, name string) {
 							map[string]interface{}{"service": name, "owned_resources": own[0], "owned_access": nil, "subject": subj, "subscriptions": subjectsOf(rg.C.Subs())})
 						rg.stop()
 						return
+					}
+					// a request for a resource that an explicitly owned pattern covers belongs to the service
+					owned := own[0]
+					if strings.HasPrefix(subj, "access.") {
+						owned = own[1]
+					}
+					for _, op := range owned {
+						if _, ok := ref.Match(op, rn); ok {
+							c.Violation("C04/no-response:owned-resource-not-subscribed", fmt.Sprintf("service %q owns %q, which covers %q, but request %s reaches no subscription", name, op, rn, subj),
+								map[string]interface{}{"service": name, "owned_resources": own[0], "owned_access": own[1], "subject": subj, "subscriptions": subjectsOf(rg.C.Subs())})
+							rg.stop()
+							return
+						}
 					}
 					continue // outside what this configuration owns
 				}
